@@ -111,6 +111,20 @@ func applyOps(s *astisub.Subtitles, ops []string) (args []string) {
 	return args
 }
 
+// fileStem: file names with more dots than the one before the extension (the codec is chosen by the
+// extension, i.e. by what follows the last dot, whatever the rest of the name looks like)
+func fileStem(base string, k int) string {
+	switch (k / 3) % 4 {
+	case 1:
+		return base + ".v1.2"
+	case 2:
+		return "Show.S01E02." + base + ".en"
+	case 3:
+		return base + ".ttml.old"
+	}
+	return base
+}
+
 func caseVariant(ext string, k int) string {
 	switch k % 3 {
 	case 1:
@@ -190,16 +204,20 @@ func init() {
 		doc := decBytes(a[5])
 		dir, _ := ioutil.TempDir("", "verif-conv-")
 		defer os.RemoveAll(dir)
-		in := filepath.Join(dir, "in."+caseVariant(src, cv))
+		in := filepath.Join(dir, fileStem("in", cv)+"."+caseVariant(src, cv))
 		ioutil.WriteFile(in, doc, 0644)
 		s, err := astisub.Open(astisub.Options{Filename: in, Teletext: astisub.TeletextOptions{Page: page}})
 		if err != nil {
+			// a document the format's reader accepts must be accepted through its file name as well
+			if _, derr := readAny(src, doc, page); derr == nil {
+				return "OPENERR READABLE"
+			}
 			return "OPENERR"
 		}
 		o := []string{"SRC", canonSubs(s)}
 		o = append(o, applyOps(s, ops)...)
 		o = append(o, "OPS", canonSubs(s))
-		out := filepath.Join(dir, "out."+caseVariant(dst, cv+1))
+		out := filepath.Join(dir, fileStem("out", cv)+"."+caseVariant(dst, cv+1))
 		if err := s.Write(out); err != nil {
 			if err == astisub.ErrNoSubtitlesToWrite {
 				return strings.Join(append(o, "NOSUBS"), " ")
@@ -218,7 +236,7 @@ func init() {
 				seed := uint64(atoi64(strings.Split(ops[0], ":")[1]))
 				ioutil.WriteFile(in2, renderSRT(newRng(seed, "merge"), plainCues(newRng(seed, "mergecues"), 2), true), 0644)
 			}
-			out2 := filepath.Join(dir, "cli."+caseVariant(dst, cv+1))
+			out2 := filepath.Join(dir, fileStem("cli", cv)+"."+caseVariant(dst, cv+1))
 			if args, ok := cliArgs(ops, in, in2, out2, page); ok {
 				cmd := exec.Command(cli, args...)
 				if err := cmd.Run(); err != nil {
@@ -279,7 +297,7 @@ func init() {
 					if len(ops) == 0 {
 						ops = []string{"-"}
 					}
-					c.do(fmt.Sprintf("conv.pair %s %s %d %d %s %s", src, dst, r.intn(3), page, strings.Join(ops, ","), encBytes(doc)))
+					c.do(fmt.Sprintf("conv.pair %s %s %d %d %s %s", src, dst, r.intn(12), page, strings.Join(ops, ","), encBytes(doc)))
 					c.count(src + "->" + dst)
 				}
 			}
